@@ -402,7 +402,10 @@ func (p *dagPrinter) print(t *Term) string {
 func smtName(n string) string { return n }
 
 func runSolver(ctx context.Context, s solverCfg, file string, timeout time.Duration) (status, out string, dur float64) {
-	wall := timeout
+	// z3 is limited by a deterministic resource count (below) with a generous wall-clock backstop;
+	// cvc5 1.0 has no comparable knob calibrated here, so it gets three times the nominal wall budget:
+	// an obligation only cvc5 decides must not turn into a timeout because the machine is busy
+	wall := 3 * timeout
 	if s.name != "cvc5" {
 		wall = 4*timeout + 2*time.Second
 	}
@@ -415,7 +418,7 @@ func runSolver(ctx context.Context, s solverCfg, file string, timeout time.Durat
 		// wall-clock time, so that machine load cannot turn a proof into a timeout
 		argv = append(argv, fmt.Sprintf("-T:%d", 4*int(timeout.Seconds())+1), fmt.Sprintf("rlimit=%d", int64(timeout.Seconds())*2200000))
 	case "cvc5":
-		argv = append(argv, fmt.Sprintf("--tlimit=%d", timeout.Milliseconds()))
+		argv = append(argv, fmt.Sprintf("--tlimit=%d", 3*timeout.Milliseconds()))
 	}
 	argv = append(argv, file)
 	cmd := exec.CommandContext(cctx, argv[0], argv[1:]...)
